@@ -13,9 +13,26 @@ use crate::util::{decode, status_name, Decoded};
 use ctap_types::serde::cbor_deserialize;
 use ctap_types::webauthn::{PublicKeyCredentialRpEntity, PublicKeyCredentialUserEntity};
 
+/// characters that text-processing code tends to treat specially, by UTF-8 width
+const SPECIAL_1: [char; 8] = ['\u{0}', ' ', '\t', '\n', '"', '\\', '\u{7f}', '/'];
+const SPECIAL_2: [char; 8] = ['\u{a0}', '\u{ad}', '\u{301}', '\u{308}', '\u{5d0}', '\u{627}', '\u{80}', '\u{7ff}'];
+const SPECIAL_3: [char; 14] = [
+    '\u{200d}', '\u{200c}', '\u{200b}', '\u{200e}', '\u{200f}', '\u{202e}', '\u{2028}', '\u{feff}', '\u{fe0f}', '\u{fffd}',
+    '\u{ffff}', '\u{800}', '\u{d7ff}', '\u{e000}',
+];
+const SPECIAL_4: [char; 6] = ['\u{10000}', '\u{1f600}', '\u{1f3fb}', '\u{e0001}', '\u{100000}', '\u{10ffff}'];
+
 fn char_of_width(rng: &mut Rng, w: usize, fixed: bool) -> char {
     if fixed {
         return ['a', '\u{e9}', '\u{20ac}', '\u{1f600}'][w - 1];
+    }
+    if rng.chance(1, 3) {
+        return match w {
+            1 => *rng.pick(&SPECIAL_1),
+            2 => *rng.pick(&SPECIAL_2),
+            3 => *rng.pick(&SPECIAL_3),
+            _ => *rng.pick(&SPECIAL_4),
+        };
     }
     let c = match w {
         1 => rng.range(0x20, 0x7e) as u32,
